@@ -624,13 +624,13 @@ func (x *Exec) stringAxioms() []*Term {
 		n := x.b.Var("ax!n", is)
 		i := x.b.Var("ax!i", is)
 		zero := x.b.Num(big.NewInt(0), is)
-		s := x.b.App("str.of", StrSort, a, o, n)
+		s := x.b.App("gostr.of", StrSort, a, o, n)
 		rd := x.b.Select(x.strArr(s), i)
 		out = append(out, x.b.Forall([]*Term{a, o, n, i},
 			x.b.Implies(x.b.And(x.b.Le(zero, i, true), x.b.Lt(i, n, true)), x.b.Eq(rd, x.b.Select(a, x.b.Add(o, i)))),
 			[]*Term{rd}))
 		sv := x.b.Var("ax!s", StrSort)
-		rt := x.b.App("str.of", StrSort, x.strArr(sv), zero, x.strLen(sv))
+		rt := x.b.App("gostr.of", StrSort, x.strArr(sv), zero, x.strLen(sv))
 		out = append(out, x.b.Forall([]*Term{sv}, x.b.Eq(rt, sv), []*Term{rt}))
 	}
 	return out
